@@ -44,7 +44,8 @@ def linksOf (j : Json) : Except String Links := do
 
 def stateOf (j : Json) : Except String State := do
   pure { objs := ← listOf objOf (← fld j "objs"), queue := ← listOf (optOf natOf) (← fld j "queue"),
-         modified := ← fromJson? (← fld j "modified"), saved := [], trace := [], lk := ← linksOf (← fld j "links") }
+         modified := ← fromJson? (← fld j "modified"), saved := [], trace := [], lk := ← linksOf (← fld j "links"),
+         refs := (← (j.getObjVal? "refs").toOption.mapM (listOf (listOf natOf))).getD [] }
 
 def opOf (j : Json) : Except String HOp := do
   match j with
@@ -52,6 +53,9 @@ def opOf (j : Json) : Except String HOp := do
   | .arr #[.str "modify", o] => pure (.modify (← natOf o))
   | .arr #[.str "create"] => pure .create
   | .arr #[.str "query"] => pure .query
+  | .arr #[.str "setRef", i, g] => pure (.setRef (← natOf i) (← natOf g))
+  | .arr #[.str "refNewTo", g] => pure (.refNewTo (← natOf g))
+  | .arr #[.str "refToNew", i] => pure (.refToNew (← natOf i))
   | .arr #[.str "link", a, b] => pure (.link (← natOf a) (← natOf b))
   | .arr #[.str "unlink", a, b] => pure (.unlink (← natOf a) (← natOf b))
   | .arr #[.str "linkNewOwner", b] => pure (.linkNewOwner (← natOf b))
@@ -128,8 +132,7 @@ def handle (j : Json) : Except String Json := do
       pure (jResult (flushN H ord bfuel (← argNat j "depth") s))
   | "entityFlush" =>
       let o ← argNat j "obj"
-      let refs ← listOf (listOf natOf) (← fld j "refs")        -- refs[p] = objects the row of p refers to
-      let obs ← listOf natOf (← fld j "saved")                 -- observed statement order of obj._save_()
-      pure (jResult (entityFlush H (fun _ p => (refs[p]?).getD []) (fun _ _ => obs) bfuel s o))
+      -- the references are part of the state ("refs" of the state object); the scan and the save order are computed by the model
+      pure (jResult (entityFlushRefs H bfuel s o))
   | _ => throw s!"unknown op {op}"
 end PonyVerif.Drive.C33
